@@ -74,6 +74,7 @@ Ltac strip_r t :=
   | upd_inact _ ?y => strip_r y | upd_ack _ ?y => strip_r y | upd_nak _ ?y => strip_r y
   | emit_ind _ ?y => strip_r y | emit_pdu _ _ _ ?y => strip_r y
   | prepare_ack_eof ?y => strip_r y | prepare_finished _ ?y => strip_r y
+  | shutdown _ ?y => strip_r y
   | _ => t
   end.
 
@@ -105,7 +106,7 @@ Ltac solve_ss J ext calls :=
   lazymatch goal with
   | |- J ?t =>
       first [ assumption
-            | calls; solve_ss J ext calls
+            | calls tt; solve_ss J ext calls
             | let b := strip_s t in
               tryif constr_eq b t then fail
               else (eapply (ext b); [ solve_ss J ext calls | reflexivity .. ]) ]
